@@ -636,7 +636,7 @@ struct Case {
 		if (a.cur < 0) return;
 		const Req prev = toReq(a.obj->previousTransition());
 		if (prev.valid) replay(prev.dest);
-		else if (w.aux.chance(1, 20)) replay(255);
+		else if (w.ch.chance(1, 20)) replay(255);
 		compareReplica(opName(d.op));
 #else
 		(void) d;
@@ -862,7 +862,7 @@ static uint32_t nontrivialMask(const std::string& prop) {
 static void writeReplay(const World& w, const std::string& path, const char* mode) {
 	FILE* f = fopen(path.c_str(), "w");
 	if (!f) return;
-	fprintf(f, "fsmmon-replay 1\nconfig %s\nmode %s\nseed %llu\ncase %llu\nfill %u\nlogmode %ld\nmaxops %ld\ndraws %zu\n", cfg::name(), mode,
+	fprintf(f, "fsmmon-replay 1\ncfgname %s\nconfig %s\nmode %s\nseed %llu\ncase %llu\nfill %u\nlogmode %ld\nmaxops %ld\ndraws %zu\n", g_args.str("cfgname", "?").c_str(), cfg::name(), mode,
 			(unsigned long long) g_args.seed, (unsigned long long) w.caseNo, g_fill, g_args.num("logmode", 9), g_args.num("ops", 0), w.ch.drawn.size());
 	for (size_t i = 0; i < w.ch.drawn.size(); ++i) fprintf(f, "%u%c", w.ch.drawn[i], (i + 1) % 32 ? ' ' : '\n');
 	fprintf(f, "\ntrace:\n");
